@@ -79,7 +79,7 @@ def build_scanner(flex, case, flavour, outdir, flexargs=(), ccvariant="san", rng
         return b
     exe = os.path.join(outdir, name + ".exe")
     cc = ["g++" if cxx else "gcc"] + CC_VARIANTS[ccvariant] + [
-        "-w", "-I", HARNESS, "-I", flex.include] + list(extra_cflags) + scov.cflags() + ["-o", exe, out]
+        "-w", "-I", HARNESS, "-I", flex.include] + list(extra_cflags) + (scov.cflags() if ccvariant != "tsan" else []) + ["-o", exe, out]
     if ccvariant == "tsan":
         cc.append("-lpthread")
     b.cccmd = cc
